@@ -307,6 +307,22 @@ func runC16(c *ctx, r *Report) error {
 				if tf != nil && !strings.HasPrefix(tf.Snippet, shown) {
 					r.finding("template-snippet", "GetTemplateFields snippet differs from the line PrettyPrint shows", mk(tf.Snippet))
 				}
+				// the snippet handed to -format templates is the same two lines the default output shows: the source line and
+				// the indicator (when there is one), at every column the default output accepts (also one past the end)
+				if tf != nil {
+					want := shown
+					if ind != "" {
+						want += "\n" + ind
+					}
+					if tf.Snippet != want {
+						r.finding("template-snippet-indicator", fmt.Sprintf("GetTemplateFields snippet %q differs from the default output's snippet %q (line %d, column %d)", tf.Snippet, want, line, col), mk(out.String()))
+					} else if ind != "" {
+						r.hist("snippet:template-with-indicator")
+						if tf.EndColumn != len(ind) {
+							r.finding("template-end-column", fmt.Sprintf("end_column %d but the indicator ends at %d", tf.EndColumn, len(ind)), mk(out.String()))
+						}
+					}
+				}
 			}
 		} else {
 			r.hist("snippet:hidden")
